@@ -355,6 +355,20 @@ pub fn datagrams(tier: Tier, seed: u64) -> Vec<(&'static str, Vec<u8>)> {
     for (_, d) in super::c08::header_sweeps() {
         out.push(("header-sweep", d));
     }
+    // VER lists of unknown numbers whose bytes spell the draft-13 number across an entry boundary
+    for shift in 1..4usize {
+        let mut ab = vec![0u8; 8];
+        ab[shift..shift + 4].copy_from_slice(&VER_IETF13);
+        ab[0] |= 0x01; // keep both entries non-zero and unknown
+        ab[7] |= 0x01;
+        let unknown = [0x01u8, 0, 0, 0x80];
+        for l in [ab.clone(), [unknown.to_vec(), ab.clone()].concat(), [ab.clone(), unknown.to_vec()].concat(), [ab.clone(), ab.clone()].concat()] {
+            out.push(("ietf-version-list", ietf_request(&l, None, &nonce(0x7c0 + out.len() as u64, 32), 1024)));
+        }
+        let mut plain = vec![0u8; 8];
+        plain[shift..shift + 4].copy_from_slice(&VER_IETF13);
+        out.push(("ietf-version-list", ietf_request(&plain, None, &nonce(0x7c0 + out.len() as u64, 32), 1024)));
+    }
     // framed requests naming every VER list of length <= 3 over {draft-13, classic 0, an unknown number}
     {
         let vs: [[u8; 4]; 3] = [VER_IETF13, [0, 0, 0, 0], [1, 0, 0, 0x80]];
